@@ -73,6 +73,16 @@ def run(run):
             run.gen("sim_%s_w%d" % (keep, w), SPEC, "OSMExtractGen", p, cp, workers=1, timeout=1800,
                     simulate="num=%d" % (120 if quick else 1500), depth=400)
             cases += vlib.read_ndjson(cp)
+    # every curated document is exercised under every keep function: its one complete single-worker schedule (gated) and,
+    # below, free-running repetitions that are not thinned
+    curated = []
+    for keep in KEEPS:
+        p = os.path.join(out, "GenC_%s.cfg" % keep)
+        cfg(p, 1, keep, "Curated", gen=True, done_only=True)
+        cp = os.path.join(out, "curated_%s.ndjson" % keep)
+        run.gen("gen_curated_%s" % keep, SPEC, "OSMExtractGen", p, cp, workers=1, timeout=1800)
+        curated += vlib.read_ndjson(cp)
+    cases += curated
     for c in cases:
         c["mode"] = "gated"
     # free-running repetitions of the documents TLC explored (distinct documents only)
@@ -86,6 +96,9 @@ def run(run):
         free.append({"mode": "free", "w": 2, "keep": c["keep"], "doc": c["doc"], "runs": 3 if quick else 20, "procs": [1, 2, 4, 16]})
     if quick:
         free = free[:: max(1, len(free) // 60)]
+    cur_free = [{"mode": "free", "w": 2, "keep": c["keep"], "doc": c["doc"], "runs": 3 if quick else 20, "procs": [1, 2, 4, 16]} for c in curated]
+    free = cur_free + [f for f in free if json.dumps([f["keep"], f["doc"]], sort_keys=True) not in
+                       set(json.dumps([c["keep"], c["doc"]], sort_keys=True) for c in cur_free)]
     allcases = cases + free
     cpath = os.path.join(out, "cases.ndjson")
     vlib.write_ndjson(cpath, allcases)
